@@ -185,7 +185,17 @@ class Client(object):
         # no keep-alive thread unless a check asks for it: it runs on wall-clock time and would outlive the world
         props = {"profile": self.profile, YowIqProtocolLayer.PROP_PING_INTERVAL: 0}
         props.update(self.props)
-        self.stack = YowStack(layers, reversed=False, props=props)
+        if getattr(self.world, "builder_assembly", False):
+            # assembled the way an application does it with the library's builder: options set on the builder, layers pushed
+            b = YowStackBuilder()
+            for k_, v_ in props.items():
+                b.setProp(k_, v_)
+            for l_ in layers:
+                b.push(l_)
+            self.stack = b.build()
+            self.world.count("stacks_built_with_builder")
+        else:
+            self.stack = YowStack(layers, reversed=False, props=props)
         self.net = self.stack.getLayer(0)
         self.noise = None
         i = 0
@@ -588,6 +598,7 @@ class World(object):
         self.double_close_report = False
         self.hold_raw = False      # when set, the responder's handshake reply is withheld (connection stuck mid-handshake)
         self.hold_connects = False # when set, pending 'connected' callbacks are not delivered
+        self.builder_assembly = False   # clients assemble their stacks through YowStackBuilder (props set on the builder)
         self.with_probes = False   # full wiring: insert recording probes above the network layer and above the application
 
     def close(self):
